@@ -482,7 +482,7 @@ class ExtendedIndexedOperand(Operand):
 
         if self.left and self.left != "":
             if self.left != "A" and self.left != "B" and self.left != "D":
-                self.left = Value.create_from_str(self.left, self.instruction, default_mode_extended=False)
+                self.left = Value.create_from_str(self.left, default_mode_extended=False)
                 if self.left.is_symbol():
                     self.left = self.left.resolve(symbol_table)
                 if self.left.is_address_expression() or self.left.is_expression():
@@ -629,7 +629,7 @@ class IndexedOperand(Operand):
 
     def resolve_symbols(self, symbol_table):
         if self.left != "" and self.left not in ["A", "B", "D"]:
-            self.left = Value.create_from_str(self.left, self.instruction, default_mode_extended=False)
+            self.left = Value.create_from_str(self.left, default_mode_extended=False)
             if self.left.is_symbol():
                 self.left = self.left.resolve(symbol_table)
             if self.left.is_address_expression() or self.left.is_expression():
